@@ -134,6 +134,15 @@ def hostile_stream(ctx, seeds):
                     b = b[:rng.randrange(len(b) + 1)] + bytes(rng.getrandbits(8) for _ in range(rng.randint(1, 8)))
                 jobs.append({"dec": dec, "data": bytes(b).hex(), "kind": "mutation"})
             jobs.append({"dec": dec, "data": seed.hex(), "kind": "valid"})
+            # text protocols: sweep every decimal field (Content-Length, CSeq, status) over negative,
+            # zero, just-too-large and absurd values - a negative length must not move a parser backwards
+            if dec in ("event", "httpclient", "httpserver"):
+                import re
+                for m in re.finditer(rb"\d+", seed):
+                    vals = [b"-%d" % k for k in range(0, len(seed) + 8)] + [b"0", b"00", b"+3", b" 3", b"3 ", b"1e3", b"0x10", b"",
+                            b"%d" % (len(seed) + 1), b"%d" % (2 ** 31), b"%d" % (2 ** 64), b"9" * 400]
+                    for v in vals:
+                        jobs.append({"dec": dec, "data": (seed[:m.start()] + v + seed[m.end():]).hex(), "kind": "number-sweep"})
     # regression inputs of the fixed hangs
     for name, c in common.load_corpus("C05"):
         if "dec" in c and "data" in c:
@@ -255,6 +264,16 @@ def hostile_announcements(c12, rng):
         out.append(("srv-only:" + ty, [{"src": hostile_ip, "msg": {"answers": [], "additional": [c12.rec_srv(["x"] + bare, 0, host)], "compress": False}}]))
         out.append(("dangling-ptr:" + ty, [{"src": hostile_ip, "msg": {"answers": [c12.rec_ptr(ty, ["ghost"] + bare)], "additional": [], "compress": False}}]))
     out.append(("sleep-proxy-ptr", [{"src": hostile_ip, "msg": {"answers": [c12.rec_ptr(c12.SLEEP, ["70-35-60-63.1 evil"] + c12.L(c12.SLEEP))], "additional": [], "compress": False}}]))
+    # decodable records whose owner name is not a service instance name (last label starting with
+    # "_", "_tcp" without a type before it, type-like labels in the wrong place, a single label)
+    for labels in (["evil", "_x"], ["evil", "_tcp"], ["a", "b", "_c"], ["Device", "_airplay", "_foo", "_bar"], ["_tcp"], ["_x"],
+                   ["_airplay", "_tcp"], ["x", "_udp"], ["_a", "_b", "_tcp"], ["local"], ["evil", "_airplay", "_TCP", "local"]):
+        host = ["evilhost", "local"]
+        nm = ".".join(labels)
+        out.append(("odd-name-txt:" + nm, [{"src": hostile_ip, "msg": {"answers": [c12.rec_txt(labels, [kv("a", "b")])], "additional": [], "compress": False}}]))
+        out.append(("odd-name-srv:" + nm, [{"src": hostile_ip, "msg": {"answers": [], "additional": [c12.rec_srv(labels, 7000, host), c12.rec_a(host, hostile_ip)], "compress": False}}]))
+        out.append(("odd-name-ptr-target:" + nm, [{"src": hostile_ip, "msg": {"answers": [c12.rec_ptr("_airplay._tcp.local", labels)], "additional": [], "compress": False}}]))
+        out.append(("odd-name-a:" + nm, [{"src": hostile_ip, "msg": {"answers": [], "additional": [c12.rec_a(labels, hostile_ip)], "compress": False}}]))
     # odd instance names
     out.append(("raop-no-at", [svc("_raop._tcp.local", [kv("am", "AppleTV6,2")], inst="noatsign")]))
     # raw garbage from the hostile host
@@ -347,7 +366,7 @@ def discovery_dynamic(ctx):
         jobs.append({"feed": [[src, data.hex()] for src, data in c12.feed_for(sc, enc, list(range(len(good))))]})
         meta.append(("base", si, None, None))
         for hi, (hname, hd) in enumerate(hostile):
-            if not ctx.thorough and (hi % nscen) != si and not hname.startswith(("garbage", "ptr-loop", "huge", "ones", "trunc", "bare", "srv-only", "dangling", "ptr-to", "sleep")):
+            if not ctx.thorough and (hi % nscen) != si and not hname.startswith(("garbage", "ptr-loop", "huge", "ones", "trunc", "bare", "srv-only", "dangling", "ptr-to", "sleep", "odd-name")):
                 continue
             for pos in sorted({0, len(good)} | ({rng.randrange(len(good) + 1)} if ctx.thorough else set())):
                 dg = good[:pos] + hd + good[pos:]
@@ -360,6 +379,36 @@ def discovery_dynamic(ctx):
                 feed = c12.feed_for(sc2, enc2, list(range(len(dg))))
                 jobs.append({"feed": [[src, data.hex()] for src, data in feed]})
                 meta.append(("hostile", si, hname, pos))
+    # unicast scanning (scan(hosts=[...])): every well-formed device is one host, the hostile
+    # host is an additional one; a result is keyed by the host address, so the well-formed hosts'
+    # configurations must be the same with and without the hostile host's answers
+    for si0, good in enumerate(scenarios):
+        si = "u%d" % si0
+        bysrc = {}
+        for d in good:
+            bysrc.setdefault(d["src"], []).append(json.loads(json.dumps(d)))
+        per = []
+        for src, dgs in bysrc.items():
+            # one answer per query the unicast scanner sends (it counts datagrams)
+            dgs = c12.fit_to_queries(rng, dgs, c12.nqueries(None))
+            per.append([data.hex() for data, _ in c12.encode_scenario({"mode": "m", "dgrams": dgs})])
+        jobs.append({"mode": "u", "feed": per + [[]]})
+        meta.append(("base", si, None, None))
+        for hi, (hname, hd) in enumerate(hostile):
+            if not ctx.thorough and (hi % nscen) != si0 and not hname.startswith(("garbage", "ptr-loop", "huge", "ones", "trunc", "bare", "srv-only", "dangling", "ptr-to", "sleep", "odd-name")):
+                continue
+            try:
+                enc2 = c12.encode_scenario({"mode": "m", "dgrams": hd})
+            except Exception as ex:
+                continue
+            # the hostile host answers every query the scanner sent it (so that the scanner considers
+            # the host complete and processes what it said), or only once (the host then times out)
+            one = [data.hex() for data, _ in enc2]
+            for rep, tag in ((c12.nqueries(None), "unicast-all-queries"), (1, "unicast-once")):
+                if rep == 1 and not (ctx.thorough or hname.startswith(("garbage", "odd-name", "ptr-loop"))):
+                    continue
+                jobs.append({"mode": "u", "feed": per + [(one * rep)[:max(rep, len(one))]]})
+                meta.append(("hostile", si, hname, tag))
     res = run_scans(jobs)
     base = {}
     total = 0
@@ -379,7 +428,7 @@ def discovery_dynamic(ctx):
         ctx.case(("discover", si, hname, pos), nontrivial=True,
                  sample={"scenario": si, "hostile": hname, "position": pos, "good_devices": len(b), "error": err} if total % 97 == 1 else None)
         ctx.count("discover:" + hname.split(":")[0])
-        replay = {"part": "discover", "hostile": hname, "position": pos, "feed": job["feed"], "expected_addresses": sorted(b)}
+        replay = {"part": "discover", "hostile": hname, "position": pos, "mode": job.get("mode", "m"), "feed": job["feed"], "expected_addresses": sorted(b)}
         if err is not None:
             if r is not None and r.get("hang"):
                 key = "C05:discover:scan-hangs"
@@ -425,6 +474,9 @@ def run(ctx):
                  sample={"decoder": dec, "bytes": j["data"][:80], "kind": j["kind"], "events": r.get("events"), "error": r.get("err")} if (len(ctx.samples) < 6 and j["kind"] == "mutation") else None)
         ctx.count("%s:%s" % (dec, r.get("err") or "ok"))
         rp = {"part": "decoder", "dec": dec, "data": j["data"], "kind": j["kind"]}
+        if r.get("hang") and j["kind"] == "number-sweep":
+            ctx.violation("C05:%s:numeric-field-does-not-terminate" % dec, "%s did not finish within its time limit on %d bytes (decimal header field replaced)" % (dec, n), rp)
+            continue
         if r.get("hang"):
             key = {"datastream": "C05:datastream:size-below-header", "event": "C05:eventchannel:bad-request-line"}.get(dec, "C05:%s:does-not-terminate" % dec)
             ctx.violation(key, "%s did not finish within its time limit on %d bytes" % (dec, n), rp)
@@ -471,7 +523,7 @@ def replay(ctx, path):
         a, b, c = BOUNDS[r["dec"]]
         return 1 if (res[0].get("hang") or res[0]["events"] > a * n * n + b * n + c) else 0
     if r.get("part") == "discover":
-        res = run_scans([{"feed": r["feed"]}])[0]
+        res = run_scans([{"mode": r.get("mode", "m"), "feed": r["feed"]}])[0]
         if res.get("err"):
             print("scan failed:", res["err"])
             return 1
